@@ -14,7 +14,7 @@ def gen_vals(depth, keys=("a", "b")):
     sub = [ABSENT] + gen_vals(depth - 1, keys)
     out = list(leaves)
     for combo in itertools.product(sub, repeat=len(keys)):
-        out.append({k: v for k, v in zip(keys, combo) if v is not ABSENT})
+        out.append({k: copy.deepcopy(v) for k, v in zip(keys, combo) if v is not ABSENT})  # trees: no internal sharing
     return out
 
 
@@ -86,4 +86,74 @@ def assign_witness():
                 if not strict_eq(t2, want_t) or not strict_eq(r, want_r):
                     return {"input": {"target": show(t), "key": key, "value": show(v)}, "why": f"target became {show(t2)}, returned {show(r)}; contract: {show(want_t)}, {show(want_r)}", "evaluations": n}
     assign_witness.evaluations = n
+    return None
+
+
+def aliasing_witness(depth=2, quick=False):
+    """'the source documents are left unmodified': merge s into t, then merge further documents into the result;
+    s (and every earlier source) must still equal its snapshot.  Bounded: depth <= 2 over keys {a,b}."""
+    from nunavut._utilities import deep_update
+    from nunavut._utilities import DefaultValue
+    vals = gen_vals(depth)
+    chains = [{k1: {k2: {k3: leaf}}} for k1 in "ab" for k2 in "ab" for k3 in "ab" for leaf in (1, DefaultValue(2))]
+    maps = [v for v in vals if isinstance(v, Mapping)] + chains
+    later = [m for m in gen_vals(2) if isinstance(m, Mapping)][:30] + chains
+    if quick:
+        later = later[2:12] + chains[:4]
+    n = 0
+    for t in gen_vals(1) + vals[11:40]:
+        for s in maps:
+            for s2 in later:
+                n += 1
+                s_live, snap = copy.deepcopy(s), copy.deepcopy(s)
+                r = deep_update(copy.deepcopy(t), s_live)
+                r = deep_update(r, copy.deepcopy(s2))
+                if not strict_eq(s_live, snap):
+                    return {"input": {"target": show(t), "source": show(snap), "later_source": show(s2)},
+                            "why": f"after the later merge the earlier source document reads {show(s_live)}", "evaluations": n}
+    aliasing_witness.evaluations = n
+    return None
+
+
+def builder_history_witness(quick=False):
+    """Build a context, snapshot what it reports, build further contexts with other overrides, compare."""
+    import itertools
+    from nunavut.lang import LanguageContextBuilder
+    from nunavut._utilities import DefaultValue
+
+    def build(spec):
+        lang, std, flags = spec
+        b = LanguageContextBuilder(include_experimental_languages=True).set_target_language(lang)
+        opts = dict(flags)
+        if std:
+            opts["std"] = std
+        b.set_target_language_configuration_override("options", opts)
+        return b.create()
+
+    def snapshot(ctx):
+        out = {}
+        for name, lang in ctx.get_supported_languages().items():
+            out[name] = copy.deepcopy(dict(lang.get_options()))
+            out[name + ".ext"] = lang.extension
+        out["sections"] = copy.deepcopy(ctx.config.sections())
+        return out
+
+    specs = [("c", None, {}), ("c", None, {"enable_serialization_asserts": True, "target_endianness": "big"}),
+             ("cpp", "c++14", {}), ("cpp", "c++17-pmr", {"enable_serialization_asserts": DefaultValue(False)}),
+             ("cpp", "c++17", {"allocator_is_default_constructible": False}), ("py", None, {})]
+    if quick:
+        specs = specs[:5]
+    n = 0
+    for first in specs:
+        for rest in itertools.permutations(specs, 1 if quick else 2):
+            n += 1
+            ctx = build(first)
+            snap = snapshot(ctx)
+            for r in rest:
+                build(r)
+            now = snapshot(ctx)
+            if not all(strict_eq(now[k], snap[k]) if isinstance(snap[k], Mapping) else now[k] == snap[k] for k in snap):
+                diff = [k for k in snap if not (strict_eq(now[k], snap[k]) if isinstance(snap[k], Mapping) else now[k] == snap[k])]
+                return {"input": {"first": repr(first), "later": repr(rest)}, "why": f"the earlier context now reports different {diff}", "evaluations": n}
+    builder_history_witness.evaluations = n
     return None
